@@ -381,6 +381,35 @@ let c19 s b =
     done) gis
 
 
+
+(* ---- C14: shape evaluation: transform, slot filling by identity, tape run ------------ *)
+let c14 s b =
+  let arena = parse_arena s in
+  let root = next_nat s in
+  let n = next_nat s in
+  let nit = next s in
+  let it = times nit (fun () -> let v = next_nat s in let i = next_nat s in (v, i)) in
+  let mat = if next s = 1 then Some (times 16 (fun () -> next_f32 s)) else None in
+  let x = next_f32 s in let y = next_f32 s in let z = next_f32 s in
+  let nsup = next s in
+  let sup = times nsup (fun () -> let v = next s in let f = next_f32 s in (v, f)) in
+  let vars v = List.assoc_opt (int_of_nat v) sup in
+  let orc = libm_oracle in
+  let cb f = let v = int_of_f32 f in if v land 0x7fffffff > 0x7f800000 then 0x7fc00000 else v in
+  match flatten arena [root] with
+  | Err c -> Printf.bprintf b "flatten err %d" (int_of_nat c)
+  | Ok (t, vm) ->
+    Printf.bprintf b "vars"; List.iter (fun v -> Printf.bprintf b " %d" (int_of_nat v)) vm;
+    let ((x', y'), z') = (match mat with Some m -> ftransform m x y z | None -> ((x, y), z)) in
+    Printf.bprintf b " | xyz %d %d %d" (cb x') (cb y') (cb z');
+    (match reg_tape_new n t.t_ops with
+     | Err _ -> Printf.bprintf b " | out alloc-err"
+     | Ok (rt, _) ->
+       (match shape_point orc rt vm it mat x y z vars with
+        | Err _ -> Printf.bprintf b " | out missing"
+        | Ok [v] -> Printf.bprintf b " | out %d" (cb v)
+        | Ok _ -> Printf.bprintf b " | out arity"))
+
 (* ---- C18: view manipulation (fidget-gui Canvas2 / Canvas3), f32 instance ------------- *)
 let c18 s b =
   let dim = next s in
@@ -547,6 +576,7 @@ let dispatch cmd s b =
   | "c16" -> c16 s b
   | "c19" -> c19 s b
   | "c18" -> c18 s b
+  | "c14" -> c14 s b
   | "bcval" -> cmd_bcval s b
   | "c20" -> c20 s b
   | "c04" -> c04 s b
